@@ -43,7 +43,7 @@ type c03prog struct {
 	MaxName bool `json:"maxname,omitempty"`
 }
 
-type monFile struct {
+type vfMonFile struct {
 	path string
 	data []byte
 	offs map[string]uint32
@@ -60,7 +60,7 @@ type c03env struct {
 	names []string
 	// begun is a 128-bit sum per counter (hi, lo)
 	begunHi, begunLo []uint64
-	mon              map[string]*monFile
+	mon              map[string]*vfMonFile
 	lastCur          *mappedFile
 	sched            *verifrt.Sched
 	viol             string // first violation message of this schedule
@@ -82,7 +82,7 @@ type c03env struct {
 var c03CounterNow time.Time
 
 func newC03env(res *verifrt.Result, base string) *c03env {
-	e := &c03env{res: res, q: &verifrt.Quarantine{}, mon: map[string]*monFile{}, unmapStep: map[string]int{},
+	e := &c03env{res: res, q: &verifrt.Quarantine{}, mon: map[string]*vfMonFile{}, unmapStep: map[string]int{},
 		opStartUnmaps: map[int]int{}, inRead: map[int]bool{}, window: map[int]bool{}, heldSwap: map[int]bool{}, halfSwap: map[int]bool{}}
 	e.dir, _ = os.MkdirTemp(base, "t")
 	telemetry.Default = telemetry.NewDir(e.dir)
@@ -91,7 +91,7 @@ func newC03env(res *verifrt.Result, base string) *c03env {
 	e.now = time.Date(2024, 3, 4, 10, 0, 0, 0, time.UTC) // a Monday
 	CounterTime = func() time.Time { return e.now }
 	e.f = &file{}
-	trapExit()
+	vfTrapExit()
 	munmap = func(d *mmap.Data) error {
 		step := 0
 		if e.sched != nil {
@@ -142,7 +142,7 @@ func (e *c03env) refreshMon() {
 		p := filepath.Join(telemetry.Default.LocalDir(), en.Name())
 		m := e.mon[p]
 		if m == nil {
-			m = &monFile{path: p, offs: map[string]uint32{}, last: map[string]uint64{}}
+			m = &vfMonFile{path: p, offs: map[string]uint32{}, last: map[string]uint64{}}
 			e.mon[p] = m
 		}
 		fi, err := os.Stat(p)
@@ -185,7 +185,7 @@ func (e *c03env) persisted(i int) (hi, lo uint64) {
 		}
 		v := binary.LittleEndian.Uint64(m.data[off:])
 		if v < m.last[name] {
-			e.violate("cell-decreased", fmt.Sprintf("counter %q in %s went from %d to %d", trunc40(name), filepath.Base(m.path), m.last[name], v))
+			e.violate("cell-decreased", fmt.Sprintf("counter %q in %s went from %d to %d", vfTrunc40(name), filepath.Base(m.path), m.last[name], v))
 		}
 		m.last[name] = v
 		var c uint64
@@ -293,17 +293,17 @@ func (e *c03env) check(final bool) {
 		lo, carry := bits.Add64(plo, x, 0)
 		hi := phi + carry
 		if hi > e.begunHi[i] || (hi == e.begunHi[i] && lo > e.begunLo[i]) {
-			e.violate("overcount", fmt.Sprintf("counter %q: persisted %d (hi %d) + pending %d exceeds increments begun %d (hi %d)", trunc40(e.names[i]), plo, phi, x, e.begunLo[i], e.begunHi[i]))
+			e.violate("overcount", fmt.Sprintf("counter %q: persisted %d (hi %d) + pending %d exceeds increments begun %d (hi %d)", vfTrunc40(e.names[i]), plo, phi, x, e.begunLo[i], e.begunHi[i]))
 		}
 		if final {
 			if st.readers() != 0 {
-				e.violate("state-not-released", fmt.Sprintf("counter %q: state word %#x still has readers/lock after all calls returned", trunc40(e.names[i]), uint64(st)))
+				e.violate("state-not-released", fmt.Sprintf("counter %q: state word %#x still has readers/lock after all calls returned", vfTrunc40(e.names[i]), uint64(st)))
 			}
 			if e.begunHi[i] == 0 && e.begunLo[i] < 1<<33-1 { // below every saturation limit
 				if hi != 0 || lo != e.begunLo[i] {
-					e.violate("lost-increment:"+e.cause(i), fmt.Sprintf("counter %q: after quiescence persisted %d + pending %d != increments %d", trunc40(e.names[i]), plo, x, e.begunLo[i]))
+					e.violate("lost-increment:"+e.cause(i), fmt.Sprintf("counter %q: after quiescence persisted %d + pending %d != increments %d", vfTrunc40(e.names[i]), plo, x, e.begunLo[i]))
 				} else if cur != nil && x != 0 && e.f.err == nil {
-					e.violate("unpersisted-after-quiescence:"+e.cause(i), fmt.Sprintf("counter %q: file is open and all calls returned but %d remain only in memory", trunc40(e.names[i]), x))
+					e.violate("unpersisted-after-quiescence:"+e.cause(i), fmt.Sprintf("counter %q: file is open and all calls returned but %d remain only in memory", vfTrunc40(e.names[i]), x))
 				}
 			}
 		}
@@ -312,7 +312,7 @@ func (e *c03env) check(final bool) {
 
 // ---- programs
 
-func bigName(i int) string {
+func vfBigName(i int) string {
 	return fmt.Sprintf("grow/%d/", i) + strings.Repeat("g", 3900)
 }
 
@@ -415,7 +415,7 @@ func runC03(res *verifrt.Result, base string, p c03prog, st c03strategy, rnd *ve
 	if p.PreOpen {
 		e.f.rotate1()
 		for i := 0; i < p.PreFill; i++ {
-			j := e.addCounter(bigName(e.growN))
+			j := e.addCounter(vfBigName(e.growN))
 			e.growN++
 			e.begin(j, 1)
 			e.ctrs[j].Add(1)
@@ -447,7 +447,7 @@ func runC03(res *verifrt.Result, base string, p c03prog, st c03strategy, rnd *ve
 					e.now = e.now.Add(8 * 24 * time.Hour)
 					e.f.rotate1()
 				case "grow":
-					j := e.addCounter(bigName(e.growN))
+					j := e.addCounter(vfBigName(e.growN))
 					e.growN++
 					e.begin(j, 1)
 					e.ctrs[j].Add(1)
@@ -519,10 +519,10 @@ func c03Judge(r *verifrt.Result, check string, i int, p c03prog, st c03strategy,
 	}
 	for _, t := range s.Threads {
 		if t.Panic != nil {
-			sig := "panic:" + topFrame(t.Stack)
+			sig := "panic:" + vfTopFrame(t.Stack)
 			msg := fmt.Sprintf("thread %s panicked in program %s: %v\n%.1500s", t.Name, p.Name, t.Panic, t.Stack)
 			if ep, ok := t.Panic.(verifrt.ExitPanic); ok {
-				sig = fmt.Sprintf("exit-%d:counter-bug-on-healthy-file:%s", ep.Code, exitFrame(t.Stack))
+				sig = fmt.Sprintf("exit-%d:counter-bug-on-healthy-file:%s", ep.Code, vfExitFrame(t.Stack))
 			} else if addr, ok := verifrt.FaultAddr(t.Panic); ok {
 				if idx, label, ok := e.q.FindIndex(addr); ok {
 					timing, cause := "overlapping-call", e.causeAny()
@@ -535,10 +535,10 @@ func c03Judge(r *verifrt.Result, check string, i int, p c03prog, st c03strategy,
 							cause = "none"
 						}
 					}
-					sig = "stale-mapping-access:" + topFrame(t.Stack) + ":" + timing + ":" + cause
+					sig = "stale-mapping-access:" + vfTopFrame(t.Stack) + ":" + timing + ":" + cause
 					msg = fmt.Sprintf("thread %s accessed address %#x inside a counter-file mapping that had been unmapped (%s) — in production this is a SIGSEGV or a write into unrelated memory. program %s\n%.1500s", t.Name, addr, label, p.Name, t.Stack)
 				} else {
-					sig = "fault:" + topFrame(t.Stack)
+					sig = "fault:" + vfTopFrame(t.Stack)
 				}
 			}
 			r.Violate(sig, msg, replay)
@@ -574,7 +574,7 @@ func TestVerifC03(t *testing.T) {
 	per := (total + nb - 1) / nb
 	core := c03CorePrograms()
 	verifrt.RunBatches("TestVerifC03", res, nb, 0, 40*time.Minute, "c03.death", func(b int, r *verifrt.Result, cur *verifrt.Current) {
-		base := vtmp("c03-")
+		base := vfVtmp("c03-")
 		defer os.RemoveAll(base)
 		points := map[string]bool{}
 		lo, hi := verifrt.CaseRange(check, b, per)
